@@ -18,6 +18,8 @@ import DateutilVerif.Proofs.TzStrTableM
 import DateutilVerif.Proofs.TzStrTableJ
 import DateutilVerif.Proofs.TzStrTableN
 import DateutilVerif.Proofs.TzStrTableH
+import DateutilVerif.Proofs.TzStrRange
+import DateutilVerif.Model.TzRange
 
 namespace C08
 open TzStr Posix
@@ -87,6 +89,201 @@ theorem transitions_eq_posix_partial (s : Spec) (y : Int) (hy1 : 2 ≤ y) (hy2 :
   refine ⟨sd, ed, hsd, hed, _, _, hsa, hea, ?_, ?_⟩
   · unfold startUtc; simp
   · unfold endUtc; simp; omega
+
+/-- the zone object `tzstr.__init__` builds for the canonical spelling of `s` -/
+def IsZoneOf (s : Spec) (z : Zone) : Prop :=
+  z.hasdst = true ∧ z.stdOff = s.stdOff ∧ z.dstOff = s.dstOff ∧
+  ∃ sd ed, z.start = some sd ∧ z.«end» = some ed ∧
+    delta (resOf s).start false s.stdOff s.dstOff = .ok sd ∧
+    delta (resOf s).«end» true s.stdOff s.dstOff = .ok ed
+
+/-- the model's yearly transitions of such a zone, in the `RangeZone` (epoch) convention -/
+theorem range_transitions (s : Spec) (z : Zone) (hz : IsZoneOf s z) (y : Int) (hy1 : 2 ≤ y) (hy2 : y ≤ 9998)
+    (hs : ValidRule s.startRule) (he : ValidRule s.endRule) (ht : InRangeTimes s) :
+    (TZ.ofTzStr z).transitions y =
+      some (startUtc s y + s.stdOff - TZ.epochShift, endUtc s y + s.stdOff - TZ.epochShift) := by
+  obtain ⟨h1, h2, h3, sd, ed, h4, h5, h6, h7⟩ := hz
+  obtain ⟨sd', ed', e1, e2, a, b, e3, e4, e5, e6⟩ := transitions_eq_posix_partial s y hy1 hy2 hs he ht
+  rw [h6] at e1; rw [h7] at e2
+  cases Except.ok.inj e1; cases Except.ok.inj e2
+  have : TzStr.transitions z y = .ok (some (a, b)) := by
+    unfold TzStr.transitions
+    simp only [h1, h4, h5, e3, e4, bind, Except.bind]
+  simp only [TZ.ofTzStr, this]
+  congr 2 <;> omega
+
+/-- **C08 (main statement), mid-year form** (no margin needed, but the instant must not be within an offset of New Year).
+    `z` is the zone of the spec `s` (positive saving), viewed as a `tzrangebase`
+    (`TZ.ofTzStr z`, whose `transitions` are the model's `TzStr.transitions`).  `t` is a UTC instant
+    (seconds since the epoch) of a year `Y` in 3..9997 such that
+    * in `Y−1`, `Y`, `Y+1` both transitions lie inside their own UTC year and come in the same order
+      (either hemisphere), and
+    * the wall-clock year of `t` under either offset is `Y` (the instant is not within an offset of
+      New Year — `tzrangebase` looks the rule up by the UTC year in `fromutc` and by the wall-clock
+      year in `utcoffset`; where the two differ is D-C04y's class).
+    Then the converted datetime reports POSIX's offset, `dst() = saving` exactly when POSIX says
+    daylight time, and the matching abbreviation. -/
+theorem tzstr_posix_midyear_partial (s : Spec) (z : Zone) (hz : IsZoneOf s z)
+    (hs : ValidRule s.startRule) (he : ValidRule s.endRule) (ht : InRangeTimes s)
+    (hsav : s.stdOff < s.dstOff) (t Y : Int) (hY : TZ.yearOf t = Y) (hY1 : 3 ≤ Y) (hY2 : Y ≤ 9997)
+    (i0 : TZ.Inside s (Y - 1)) (i1 : TZ.Inside s Y) (i2 : TZ.Inside s (Y + 1))
+    (o0 : startUtc s (Y - 1) < endUtc s (Y - 1) ↔ startUtc s Y < endUtc s Y)
+    (o2 : startUtc s (Y + 1) < endUtc s (Y + 1) ↔ startUtc s Y < endUtc s Y)
+    (hw1 : TZ.yearOf (t + s.stdOff) = Y) (hw2 : TZ.yearOf (t + s.dstOff) = Y) :
+    ∃ w, (TZ.ofTzStr z).fromutc t = .ok w ∧
+      (TZ.ofTzStr z).utcoffset w = .ok (Posix.offsetAt s (t + TZ.epochShift)) ∧
+      (TZ.ofTzStr z).dst w = .ok (if Posix.isDstAt s (t + TZ.epochShift) then s.dstOff - s.stdOff else 0) ∧
+      (TZ.ofTzStr z).tzname w = .ok (if Posix.isDstAt s (t + TZ.epochShift)
+        then TZ.abbrBytes z.dstAbbr else TZ.abbrBytes z.stdAbbr) := by
+  have htr := range_transitions s z hz Y (by omega) (by omega) hs he ht
+  obtain ⟨z1, z2, z3, _⟩ := hz
+  have hstd : (TZ.ofTzStr z).stdOff = s.stdOff := z2
+  have hdst : (TZ.ofTzStr z).dstOff = s.dstOff := z3
+  have hsv : (TZ.ofTzStr z).saving = s.dstOff - s.stdOff := by unfold TZ.RangeZone.saving; rw [hstd, hdst]
+  obtain ⟨w, hf, _, hi⟩ := TZ.RangeZone.isdst_fromutc (TZ.ofTzStr z) t _ _ _ _ _ _
+    (by rw [hsv]; omega) z1 (by rw [hY]; exact htr) (by rw [hstd, hw1]; exact htr) (by rw [hdst, hw2]; exact htr)
+    rfl rfl rfl rfl
+  -- the pair's decision is POSIX's
+  have hyT : 86400 ≤ t + TZ.epochShift := by
+    have := (TZ.yearOf_shift t)
+    by_cases c : 86400 ≤ t + TZ.epochShift
+    · exact c
+    · exfalso
+      have hdiv : (t + TZ.epochShift) / 86400 ≤ 0 := by omega
+      have h1 := TZ.fromOrdinal_year_nonpos _ hdiv
+      rw [← TZ.yearOf_shift] at h1
+      omega
+  obtain ⟨b1, b2⟩ := (TZ.yearOf_iff t Y hyT).mp hY
+  have hposix := TZ.naive_eq_posix s Y (t + TZ.epochShift) b1 b2 (by rw [← TZ.yearOf_shift]; exact hY)
+    i0 i1 i2 o0 o2
+  have hd : TZ.RangeZone.naiveIsdst t
+      (startUtc s Y + s.stdOff - TZ.epochShift - (TZ.ofTzStr z).stdOff,
+       endUtc s Y + s.stdOff - TZ.epochShift - (TZ.ofTzStr z).stdOff) = Posix.isDstAt s (t + TZ.epochShift) := by
+    rw [← hposix, hstd]
+    unfold TZ.RangeZone.naiveIsdst
+    simp only
+    rw [Bool.eq_iff_iff]
+    by_cases c : startUtc s Y < endUtc s Y
+    · have c' : startUtc s Y + s.stdOff - TZ.epochShift - s.stdOff < endUtc s Y + s.stdOff - TZ.epochShift - s.stdOff := by omega
+      simp only [c, c', if_true, Bool.and_eq_true, decide_eq_true_eq]; omega
+    · have c' : ¬ (startUtc s Y + s.stdOff - TZ.epochShift - s.stdOff < endUtc s Y + s.stdOff - TZ.epochShift - s.stdOff) := by omega
+      simp only [c, c', if_false, ← Bool.decide_and, Bool.not_eq_true', decide_eq_false_iff_not]; omega
+  rw [hd] at hi
+  obtain ⟨r1, r2, r3⟩ := TZ.RangeZone.answers_of_isdst _ w _ hi
+  refine ⟨w, hf, ?_, ?_, ?_⟩
+  · rw [r1, hstd, hdst]; rfl
+  · rw [r2, hsv]
+  · rw [r3]; rfl
+
+/-- **C08 (main statement), partial: string → transitions → lookup = POSIX.**
+    `z` is the zone of the spec `s` (positive saving) viewed as a `tzrangebase` (`TZ.ofTzStr z`,
+    whose `transitions` are the model's `TzStr.transitions`).  For EVERY UTC instant `t` (seconds
+    since the epoch) of a year `Y` in 3..9997 such that the rule pair is away from the year
+    boundary — in `Y−1`, `Y`, `Y+1` both transitions keep a margin `m` from both ends of their own
+    UTC year, where `m` bounds `|stdOff|`, `|dstOff|` and the saving, and come in the same order
+    (either hemisphere) — the converted datetime reports POSIX's offset, `dst() = saving` exactly
+    when POSIX says daylight time, and the matching abbreviation.  Instants next to New Year are
+    included: there `fromutc` and `utcoffset` consult different years' pairs, which the margin
+    makes agree (`TZ.decisions_cohere`); without the margin that is D-C04y. -/
+theorem tzstr_posix_partial (s : Spec) (z : Zone) (hz : IsZoneOf s z)
+    (hs : ValidRule s.startRule) (he : ValidRule s.endRule) (ht : InRangeTimes s)
+    (hsav : s.stdOff < s.dstOff) (t Y m : Int) (hY : TZ.yearOf t = Y) (hY1 : 3 ≤ Y) (hY2 : Y ≤ 9997)
+    (m1 : -m ≤ s.stdOff) (m2 : s.stdOff ≤ m) (m3 : -m ≤ s.dstOff) (m4 : s.dstOff ≤ m)
+    (m5 : s.dstOff - s.stdOff ≤ m)
+    (i0 : TZ.InsideM s (Y - 1) m) (i1 : TZ.InsideM s Y m) (i2 : TZ.InsideM s (Y + 1) m)
+    (o0 : startUtc s (Y - 1) < endUtc s (Y - 1) ↔ startUtc s Y < endUtc s Y)
+    (o2 : startUtc s (Y + 1) < endUtc s (Y + 1) ↔ startUtc s Y < endUtc s Y) :
+    ∃ w, (TZ.ofTzStr z).fromutc t = .ok w ∧
+      (TZ.ofTzStr z).utcoffset w = .ok (Posix.offsetAt s (t + TZ.epochShift)) ∧
+      (TZ.ofTzStr z).dst w = .ok (if Posix.isDstAt s (t + TZ.epochShift) then s.dstOff - s.stdOff else 0) ∧
+      (TZ.ofTzStr z).tzname w = .ok (if Posix.isDstAt s (t + TZ.epochShift)
+        then TZ.abbrBytes z.dstAbbr else TZ.abbrBytes z.stdAbbr) := by
+  have hm : 0 < m := by omega
+  have htr := range_transitions s z hz Y (by omega) (by omega) hs he ht
+  have z1 := hz.1
+  have hstd : (TZ.ofTzStr z).stdOff = s.stdOff := hz.2.1
+  have hdst : (TZ.ofTzStr z).dstOff = s.dstOff := hz.2.2.1
+  have hsv : (TZ.ofTzStr z).saving = s.dstOff - s.stdOff := by unfold TZ.RangeZone.saving; rw [hstd, hdst]
+  have hyT : 86400 ≤ t + TZ.epochShift := by
+    by_cases c : 86400 ≤ t + TZ.epochShift
+    · exact c
+    · exfalso
+      have hdiv : (t + TZ.epochShift) / 86400 ≤ 0 := by omega
+      have h1 := TZ.fromOrdinal_year_nonpos _ hdiv
+      rw [← TZ.yearOf_shift] at h1
+      omega
+  obtain ⟨b1, b2⟩ := (TZ.yearOf_iff t Y hyT).mp hY
+  -- the wall-clock years' pairs
+  have wall : ∀ o, (o = s.stdOff ∨ o = s.dstOff) → ∃ on' off',
+      (TZ.ofTzStr z).transitions (TZ.yearOf (t + o)) = some (on', off') ∧
+      TZ.RangeZone.naiveIsdst (t + o) (on', off') = TZ.RangeZone.naiveIsdst (t + o)
+        (startUtc s Y + s.stdOff - TZ.epochShift, endUtc s Y + s.stdOff - TZ.epochShift) ∧
+      (decide (off' ≤ t + o) && decide (t + o < off' + (s.dstOff - s.stdOff))) =
+      (decide (endUtc s Y + s.stdOff - TZ.epochShift ≤ t + o) &&
+        decide (t + o < endUtc s Y + s.stdOff - TZ.epochShift + (s.dstOff - s.stdOff))) := by
+    intro o ho
+    obtain ⟨y', ⟨p1, p2⟩, hy', hn, ha⟩ := TZ.decisions_cohere s m Y (t + TZ.epochShift) o b1 b2 hsav ho
+      m1 m2 m3 m4 m5 i0 i1 i2 o0 o2
+    have hy'1 : 2 ≤ y' := by omega
+    have hy'2 : y' ≤ 9998 := by omega
+    have hge := TZ.ys_ge y' (by omega)
+    have hyo : TZ.yearOf (t + o) = y' := by
+      rw [TZ.yearOf_iff (t + o) y' (by omega)]
+      exact ⟨by omega, by omega⟩
+    refine ⟨_, _, by rw [hyo]; exact range_transitions s z hz y' hy'1 hy'2 hs he ht, ?_, ?_⟩
+    · have e : t + o = (t + TZ.epochShift + o) - TZ.epochShift := by omega
+      rw [e, TZ.naiveIsdst_shift, TZ.naiveIsdst_shift]; exact hn
+    · have e : t + o = (t + TZ.epochShift + o) - TZ.epochShift := by omega
+      rw [e, TZ.amb_shift, TZ.amb_shift]; exact ha
+  obtain ⟨on₁, off₁, t₁, n₁, a₁⟩ := wall s.stdOff (Or.inl rfl)
+  obtain ⟨on₂, off₂, t₂, n₂, a₂⟩ := wall s.dstOff (Or.inr rfl)
+  obtain ⟨w, hf, _, hi⟩ := TZ.RangeZone.isdst_fromutc (TZ.ofTzStr z) t _ _ on₁ off₁ on₂ off₂
+    (by rw [hsv]; omega) z1 (by rw [hY]; exact htr) (by rw [hstd]; exact t₁) (by rw [hdst]; exact t₂)
+    (by rw [hstd]; exact n₁) (by rw [hstd, hsv]; exact a₁) (by rw [hdst]; exact n₂) (by rw [hdst, hsv]; exact a₂)
+  have hposix := TZ.naive_eq_posix s Y (t + TZ.epochShift) b1 b2 (by rw [← TZ.yearOf_shift]; exact hY)
+    (i0.inside hm) (i1.inside hm) (i2.inside hm) o0 o2
+  have hd : TZ.RangeZone.naiveIsdst t
+      (startUtc s Y + s.stdOff - TZ.epochShift - (TZ.ofTzStr z).stdOff,
+       endUtc s Y + s.stdOff - TZ.epochShift - (TZ.ofTzStr z).stdOff) = Posix.isDstAt s (t + TZ.epochShift) := by
+    rw [← hposix, hstd]
+    have e : t = (t + TZ.epochShift) - TZ.epochShift := by omega
+    have e1 : startUtc s Y + s.stdOff - TZ.epochShift - s.stdOff = startUtc s Y - TZ.epochShift := by omega
+    have e2 : endUtc s Y + s.stdOff - TZ.epochShift - s.stdOff = endUtc s Y - TZ.epochShift := by omega
+    rw [e1, e2]
+    conv => lhs; rw [e]
+    exact TZ.naiveIsdst_shift _ _ _ _
+  rw [hd] at hi
+  obtain ⟨r1, r2, r3⟩ := TZ.RangeZone.answers_of_isdst _ w _ hi
+  refine ⟨w, hf, ?_, ?_, ?_⟩
+  · rw [r1, hstd, hdst]; rfl
+  · rw [r2, hsv]
+  · rw [r3]; rfl
+
+/-- **tzrange_eq_tzstr.** A `tzrange` built from a daylight-saving tzstr zone's abbreviations,
+    offsets and the two relativedeltas (`tzrange.__init__`, Model/TzRange.lean) is the same zone
+    record — hence equal under `tzrange.__eq__` (six fields), the same `tzrangebase` view and the
+    same answers to every query.  (`tdCheck`: the offsets are representable timedeltas, which
+    `tzstr.__init__` has already required; `truthy`: `hasdst = bool(start_delta)`.) -/
+theorem tzrange_eq_tzstr (z : Zone) (sd ed : Delta) (hd : z.hasdst = true)
+    (h1 : z.start = some sd) (h2 : z.«end» = some ed) (ht : sd.truthy = true)
+    (hc1 : tdCheck z.stdOff = .ok ()) (hc2 : tdCheck z.dstOff = .ok ()) :
+    tzrange z.stdAbbr (some z.stdOff) z.dstAbbr (some z.dstOff) z.start z.«end» = .ok z ∧
+    zoneEq z z = true ∧
+    ∀ z', tzrange z.stdAbbr (some z.stdOff) z.dstAbbr (some z.dstOff) z.start z.«end» = .ok z' →
+      zoneEq z' z = true ∧ TZ.ofTzStr z' = TZ.ofTzStr z := by
+  have hb : tzrange z.stdAbbr (some z.stdOff) z.dstAbbr (some z.dstOff) z.start z.«end» = .ok z := by
+    unfold tzrange
+    simp only [hc1, hc2, h1, h2, bind, Except.bind, pure, Except.pure, Option.isNone_some,
+      Bool.and_false, Bool.false_eq_true, if_false, ht]
+    cases z; simp_all
+  have hrefl : zoneEq z z = true := by
+    unfold zoneEq optDeltaEq deltaEq
+    rw [h1, h2]; simp
+  refine ⟨hb, hrefl, ?_⟩
+  intro z' hz'
+  rw [hb] at hz'
+  cases Except.ok.inj hz'
+  exact ⟨hrefl, rfl⟩
 
 /-- **C08 (no daylight part).** A string without a daylight abbreviation is a fixed-offset zone:
     no DST, no transitions in any year — for every string and either `posix_offset` setting. -/
@@ -168,5 +365,27 @@ example : startUtc { stdOff := -18000, dstOff := -14400, startRule := .M 3 2 0, 
     = Cal.toOrdinal 2024 3 10 * 86400 + 7 * 3600 := by decide
 example : endUtc { stdOff := -18000, dstOff := -14400, startRule := .M 3 2 0, endRule := .M 11 1 0 } 2024
     = Cal.toOrdinal 2024 11 3 * 86400 + 6 * 3600 := by decide
+
+/-! non-vacuity of `tzstr_posix_partial`: US rules (EST5EDT,M3.2.0,M11.1.0), 2024-07-01T12:00Z -/
+def usSpec : Spec := { stdOff := -18000, dstOff := -14400, startRule := .M 3 2 0, endRule := .M 11 1 0 }
+def usZone : Zone :=
+  match delta (resOf usSpec).start false usSpec.stdOff usSpec.dstOff,
+        delta (resOf usSpec).«end» true usSpec.stdOff usSpec.dstOff with
+  | .ok a, .ok b => { stdAbbr := some "EST", dstAbbr := some "EDT", stdOff := -18000, dstOff := -14400,
+                      start := some a, «end» := some b, hasdst := true }
+  | _, _ => default
+example : IsZoneOf usSpec usZone := ⟨rfl, rfl, rfl, _, _, rfl, rfl, rfl, rfl⟩
+example : TZ.InsideM usSpec 2023 18000 ∧ TZ.InsideM usSpec 2024 18000 ∧ TZ.InsideM usSpec 2025 18000 := by
+  unfold TZ.InsideM TZ.ys; decide
+/-- an instant next to New Year (2024-12-31T22:00Z: UTC year 2024, both wall readings still 2024) and
+    one whose UTC year and wall year differ (2025-01-01T02:00Z reads 2024-12-31 21:00 EST) -/
+example : TZ.yearOf 1735696800 = 2025 ∧ TZ.yearOf (1735696800 + usSpec.stdOff) = 2024 := by decide
+example : TZ.yearOf 1719835200 = 2024 ∧ TZ.yearOf (1719835200 + usSpec.stdOff) = 2024 ∧
+    TZ.yearOf (1719835200 + usSpec.dstOff) = 2024 := by decide
+example : Posix.isDstAt usSpec (1719835200 + TZ.epochShift) = true := by decide
+example : (TZ.ofTzStr usZone).fromutc 1719835200 = .ok ⟨1719835200 - 14400, false⟩ := by decide
+
+example : ∃ sd ed, usZone.start = some sd ∧ usZone.«end» = some ed ∧ sd.truthy = true ∧
+    tdCheck usZone.stdOff = .ok () ∧ tdCheck usZone.dstOff = .ok () := ⟨_, _, rfl, rfl, by decide, by decide, by decide⟩
 
 end C08
